@@ -4,6 +4,7 @@ import (
 	"fmt"
 
 	apiv1 "k8s.io/api/core/v1"
+	"k8s.io/apimachinery/pkg/types"
 	"sigs.k8s.io/controller-runtime/pkg/client"
 	gatewayv1 "sigs.k8s.io/gateway-api/apis/v1"
 	"sigs.k8s.io/gateway-api/apis/v1beta1"
@@ -48,6 +49,15 @@ func other[T comparable](r *rng.R, xs []T, not T) T {
 	return rng.Pick(r, cand)
 }
 
+// properPrefix: a non-empty proper prefix of a name that is itself a legal name (`svc0` -> `svc`, `cert-a` -> `cert`).
+func properPrefix(name string) string {
+	n := name[:len(name)-1]
+	for len(n) > 1 && n[len(n)-1] == '-' {
+		n = n[:len(n)-1]
+	}
+	return n
+}
+
 // grantFor draws a ReferenceGrant for a cross-namespace reference: correct, or with exactly one
 // near miss, optionally padded with decoy from/to entries (the cross product must not create a hit).
 func (s *Scenario) grantFor(r *rng.R, c crossRef, idx int) *v1beta1.ReferenceGrant {
@@ -56,7 +66,7 @@ func (s *Scenario) grantFor(r *rng.R, c crossRef, idx int) *v1beta1.ReferenceGra
 	ns := c.toNS
 	emptyName := false
 	kinds := []string{"Gateway", "HTTPRoute", "GRPCRoute", "TLSRoute"}
-	variant := r.Intn(20)
+	variant := r.Intn(23)
 	switch variant {
 	case 0, 1, 2:
 		s.tag("grant:exact-all-names")
@@ -111,6 +121,18 @@ func (s *Scenario) grantFor(r *rng.R, c crossRef, idx int) *v1beta1.ReferenceGra
 			[]p.GrantFrom{from}, []p.GrantTo{{Kind: map[string]string{"Service": "Secret", "Secret": "Service"}[c.toKind]}})
 		s.Objs = append(s.Objs, g1)
 		from.Namespace = other(r, s.nss, c.fromNS)
+	case 18:
+		// the REQUESTED name has the granted name as a proper prefix (grant for `svc`, reference to `svc0`)
+		to.Name = properPrefix(c.toName)
+		s.tag("miss:to-name-proper-prefix")
+	case 19:
+		// the granted name has the requested name as a proper prefix (grant for `svc0-internal`, reference to `svc0`)
+		to.Name = c.toName + rng.Pick(r, []string{"-internal", "-admin", "0"})
+		s.tag("miss:to-name-extension")
+	case 20:
+		// same length, last character differs
+		to.Name = c.toName[:len(c.toName)-1] + "z"
+		s.tag("miss:to-name-same-length")
 	default:
 		s.tag("grant:none")
 		return nil
@@ -403,45 +425,103 @@ func grantsOf(objs []client.Object) []*v1beta1.ReferenceGrant {
 	return gs
 }
 
+// pickGen1 prefers a grant that still has the generation of a fresh object.
+func pickGen1(r *rng.R, gs []*v1beta1.ReferenceGrant) *v1beta1.ReferenceGrant {
+	var fresh []*v1beta1.ReferenceGrant
+	for _, g := range gs {
+		if g.Generation == 1 {
+			fresh = append(fresh, g)
+		}
+	}
+	if len(fresh) > 0 {
+		return rng.Pick(r, fresh)
+	}
+	return rng.Pick(r, gs)
+}
+
+// narrow changes the spec of a grant so that it no longer permits what it permitted.
+func (s *Scenario) narrow(r *rng.R, g *v1beta1.ReferenceGrant) {
+	switch r.Intn(4) {
+	case 0:
+		for i := range g.Spec.To {
+			g.Spec.To[i].Name = ptr(gatewayv1.ObjectName("only-this"))
+		}
+		s.tag("ev:restrict-name")
+	case 1:
+		for i := range g.Spec.From {
+			g.Spec.From[i].Namespace = gatewayv1.Namespace(other(r, s.nss, string(g.Spec.From[i].Namespace)))
+		}
+		s.tag("ev:change-from-ns")
+	case 2:
+		for i := range g.Spec.From {
+			g.Spec.From[i].Kind = gatewayv1.Kind(other(r, []string{"Gateway", "HTTPRoute", "GRPCRoute", "TLSRoute"}, string(g.Spec.From[i].Kind)))
+		}
+		s.tag("ev:change-from-kind")
+	default:
+		g.Spec.To = g.Spec.To[:len(g.Spec.To)-1]
+		if len(g.Spec.To) == 0 {
+			g.Spec.To = []v1beta1.ReferenceGrantTo{{Kind: "ConfigMap"}}
+		}
+		s.tag("ev:drop-to-entry")
+	}
+}
+
 // nextEvents draws the events of one step of a sequence: mostly grant revocations, restrictions,
 // (re-)creations, sometimes together with an irrelevant event.
 func (s *Scenario) nextEvents(r *rng.R, objs []client.Object, removed *[]*v1beta1.ReferenceGrant, step int) []Event {
 	var evs []Event
 	gs := grantsOf(objs)
-	k := r.Intn(10)
+	k := r.Intn(15)
 	switch {
+	case k >= 10 && len(gs) > 0:
+		// history shapes around delete-and-recreate (kubectl replace --force, GitOps prune+apply)
+		g := pickGen1(r, gs).DeepCopy()
+		switch k {
+		case 10, 11:
+			// delete + re-create under the same name, coalesced by the workqueue into ONE upsert: new UID, another
+			// spec, and - like every fresh object - generation 1 again
+			g.UID = types.UID(fmt.Sprintf("recreated-%d", step))
+			g.Generation = 1
+			s.narrow(r, g)
+			evs = append(evs, Event{Upsert: g, Desc: "replace (delete+create coalesced into one upsert, generation 1 again) " + g.Namespace + "/" + g.Name})
+			s.tag("ev:replace-coalesced")
+		case 12:
+			// the spec is replaced, metadata.generation is what the stored object has
+			s.narrow(r, g)
+			evs = append(evs, Event{Upsert: g, Desc: "same-generation spec replacement " + g.Namespace + "/" + g.Name})
+			s.tag("ev:same-generation-replacement")
+		case 13:
+			// delete and re-create (another spec) delivered as two events of one batch
+			old := g.DeepCopy()
+			g.UID = types.UID(fmt.Sprintf("recreated-%d", step))
+			g.Generation = 1
+			s.narrow(r, g)
+			evs = append(evs, Event{Delete: old, Desc: "delete " + g.Namespace + "/" + g.Name},
+				Event{Upsert: g, Desc: "re-create with another spec " + g.Namespace + "/" + g.Name})
+			s.tag("ev:delete-recreate-one-batch")
+		default:
+			// the grant moves to another namespace keeping its name (where it permits nothing for its old targets)
+			old := g.DeepCopy()
+			g.Namespace = other(r, s.nss, g.Namespace)
+			g.UID = types.UID(fmt.Sprintf("moved-%d", step))
+			g.Generation = 1
+			if r.Bool() {
+				evs = append(evs, Event{Upsert: g, Desc: "create " + g.Namespace + "/" + g.Name}, Event{Delete: old, Desc: "delete " + old.Namespace + "/" + old.Name})
+			} else {
+				evs = append(evs, Event{Delete: old, Desc: "delete " + old.Namespace + "/" + old.Name}, Event{Upsert: g, Desc: "create " + g.Namespace + "/" + g.Name})
+			}
+			s.tag("ev:move-namespace")
+		}
 	case k < 4 && len(gs) > 0:
 		g := rng.Pick(r, gs)
 		*removed = append(*removed, g)
 		evs = append(evs, Event{Delete: g, Desc: "revoke " + g.Namespace + "/" + g.Name})
 		s.tag("ev:revoke")
 	case k < 6 && len(gs) > 0:
-		// restrict or retarget an existing grant
+		// restrict or retarget an existing grant (a regular update: the API server bumps the generation)
 		g := rng.Pick(r, gs).DeepCopy()
 		g.Generation++
-		switch r.Intn(4) {
-		case 0:
-			for i := range g.Spec.To {
-				g.Spec.To[i].Name = ptr(gatewayv1.ObjectName("only-this"))
-			}
-			s.tag("ev:restrict-name")
-		case 1:
-			for i := range g.Spec.From {
-				g.Spec.From[i].Namespace = gatewayv1.Namespace(other(r, s.nss, string(g.Spec.From[i].Namespace)))
-			}
-			s.tag("ev:change-from-ns")
-		case 2:
-			for i := range g.Spec.From {
-				g.Spec.From[i].Kind = gatewayv1.Kind(other(r, []string{"Gateway", "HTTPRoute", "GRPCRoute", "TLSRoute"}, string(g.Spec.From[i].Kind)))
-			}
-			s.tag("ev:change-from-kind")
-		default:
-			g.Spec.To = g.Spec.To[:len(g.Spec.To)-1]
-			if len(g.Spec.To) == 0 {
-				g.Spec.To = []v1beta1.ReferenceGrantTo{{Kind: "ConfigMap"}}
-			}
-			s.tag("ev:drop-to-entry")
-		}
+		s.narrow(r, g)
 		evs = append(evs, Event{Upsert: g, Desc: "modify " + g.Namespace + "/" + g.Name})
 	case k < 8 && len(*removed) > 0:
 		g := (*removed)[len(*removed)-1]
